@@ -43,7 +43,7 @@ from xmlschema.translation import gettext as _
 from xmlschema.utils.decoding import Empty
 from xmlschema.utils.etree import prune_etree, is_etree_element, \
     iter_schema_declarations, iter_schema_open_content
-from xmlschema.utils.qnames import get_namespace_ext
+from xmlschema.utils.qnames import get_namespace_ext, get_extended_qname
 from xmlschema.resources import XMLResource
 from xmlschema.arguments import check_validation_mode
 from xmlschema.converters import XMLSchemaConverter, ConverterType
@@ -73,6 +73,12 @@ from .builders import XsdBuilders
 from .xsd_globals import XsdGlobals
 
 logger = logging.getLogger('xmlschema')
+
+# A path that ends with two name steps, the first with an optional
+# predicate: (parent path, name of the parent step, last step)
+PARENT_CHILD_STEPS_PATTERN = re.compile(
+    r'(.*?((?:\{[^{}]*\})?[^/{}\[\]*@()|]+)(?:\[[^\[\]]*\])?)/((?:\{[^{}]*\})?[^/{}\[\]*@()|]+)'
+)
 
 name_attribute = attrgetter('name')
 
@@ -960,7 +966,11 @@ class XMLSchemaBase(XsdValidator, ElementPathMixin[Union[SchemaType, XsdElement]
         if not path or path == tag or path == f'/{tag}':
             return self.maps.elements.get(tag)
         elif path[-1] == '*':
-            xsd_element = self.find(path[:-1] + tag, namespaces)
+            path = path[:-1] + tag
+            xsd_element = self.find(path, namespaces)
+            if not isinstance(xsd_element, XsdElement):
+                xsd_element = self._find_from_parent(path, namespaces)
+
             if isinstance(xsd_element, XsdElement) and xsd_element.name == tag:
                 return xsd_element
             else:
@@ -968,11 +978,36 @@ class XMLSchemaBase(XsdValidator, ElementPathMixin[Union[SchemaType, XsdElement]
         else:
             xsd_element = self.find(path, namespaces)
             if not isinstance(xsd_element, XsdElement):
-                return None
-            elif xsd_element.name != tag:
+                xsd_element = self._find_from_parent(path, namespaces)
+                if xsd_element is None:
+                    return None
+
+            if xsd_element.name != tag:
                 return self.maps.elements.get(tag)
             else:
                 return xsd_element
+
+    def _find_from_parent(self, path: str, namespaces: Optional[NsmapType] = None) \
+            -> Optional[XsdElement]:
+        """
+        Resolves the last step of a path from the declaration of the parent element. Used when
+        the path traverses a member of a substitution group, that is matched by the declaration
+        of the head but has its own type. Returns `None` if the path doesn't end with two name
+        steps or if the parent declaration can't be found.
+        """
+        match = PARENT_CHILD_STEPS_PATTERN.fullmatch(path)
+        if match is None or '.' in match.group(2, 3) or '..' in match.group(2, 3):
+            return None
+
+        parent_path, parent_step, step = match.groups()
+        parent = self.get_element(
+            get_extended_qname(parent_step, namespaces), parent_path, namespaces
+        )
+        if parent is None:
+            return None
+
+        xsd_element = parent.find(step, namespaces)
+        return xsd_element if isinstance(xsd_element, XsdElement) else None
 
     def create_bindings(self, *bases: type, **attrs: Any) -> None:
         """
@@ -1385,7 +1420,8 @@ class XMLSchemaBase(XsdValidator, ElementPathMixin[Union[SchemaType, XsdElement]
                     prev_ancestors = ancestors[:]
 
             xsd_element = schema.get_element(elem.tag, schema_path, namespaces)
-            if xsd_element is not None and use_element_path and ancestors:
+            if use_element_path and ancestors and \
+                    (xsd_element is not None or '*' in schema_path or '//' in schema_path):
                 element_path = f"/{'/'.join(e.tag for e in ancestors)}/{elem.tag}"
                 _xsd_element = schema.get_element(elem.tag, element_path, namespaces)
                 if _xsd_element is not None:
@@ -1648,7 +1684,8 @@ class XMLSchemaBase(XsdValidator, ElementPathMixin[Union[SchemaType, XsdElement]
 
         for elem in selector:
             xsd_element = schema.get_element(elem.tag, schema_path, namespaces)
-            if xsd_element is not None and use_element_path and ancestors:
+            if use_element_path and ancestors and \
+                    (xsd_element is not None or '*' in schema_path or '//' in schema_path):
                 # The XSD element is the one found with the path of the selected element
                 element_path = f"/{'/'.join(e.tag for e in ancestors)}/{elem.tag}"
                 _xsd_element = schema.get_element(elem.tag, element_path, namespaces)
